@@ -178,6 +178,15 @@ impl<T: Qcow2IoOps> Qcow2Dev<T> {
     ) -> Qcow2Result<usize> {
         match mapping.cluster_offset {
             Some(off) => {
+                // A cluster which was allocated for a write that hasn't
+                // zeroed it yet (or failed before it got there) still holds
+                // whatever its previous owner left behind. The guest
+                // cluster reads as zeros until that write gets its data in.
+                if self.cluster_is_new(off >> self.info.cluster_bits()).await {
+                    zero_buf!(buf);
+                    return Ok(buf.len());
+                }
+
                 let done = self.call_read(off + off_in_cls as u64, buf).await?;
 
                 // An allocated cluster may reach beyond the end of the host
@@ -271,7 +280,8 @@ impl<T: Qcow2IoOps> Qcow2Dev<T> {
         // overflow for offsets near u64::MAX) and `len` to be non-zero,
         // unless clamping left nothing to read
         let single = len == 0
-            || (offset >> info.cluster_bits()) == ((offset + (len as u64) - 1) >> info.cluster_bits());
+            || (offset >> info.cluster_bits())
+                == ((offset + (len as u64) - 1) >> info.cluster_bits());
 
         let done = if single {
             let l2_entry = self.get_l2_entry(offset).await?;
